@@ -56,6 +56,14 @@ impl<T: Float> KahanSum<T> {
     }
 }
 
+#[cfg(stats_ci_verif)]
+impl<T: Float> KahanSum<T> {
+    /// Verification hook: the register contents `(sum, compensation)`.
+    pub fn verif_parts(&self) -> (T, T) {
+        (self.sum, self.compensation)
+    }
+}
+
 impl<T: Float> Default for KahanSum<T> {
     fn default() -> Self {
         Self::new(T::zero())
